@@ -176,7 +176,8 @@ def check(repo, res, tier):
     res.rule("R-SHAPE", "matrix evaluators registered as matrices")
     res.s_clauses = ["S1 R-DERIV", "S2 R-CAO", "S3 R-REFRESH", "S4 R-SHAPE"]
     res.n_clauses = ["correctness of sympy's diff / jacobian and of the compiled code", "numeric evaluation away from singularities of the rates"]
-    n = check_builders(repo, res, None, ((2, 3, 2), (3, 2, 3), (1, 2, 1), (2, 1, 3)))
+    shapes = ((2, 3, 2), (3, 2, 3), (1, 2, 1), (2, 1, 3)) + (((4, 2, 4), (2, 4, 1), (1, 1, 1), (3, 3, 2)) if tier == "thorough" else ())
+    n = check_builders(repo, res, None, shapes)
     res.floor("builder interpretations", n, 24)
     check_shapes(repo, res, {"jacobian", "grad", "diff_jacobian", "grad_jacobian", "transitionJacobian", "transitionMean", "transitionVar"},
                  {"transitionJacobian": "one-event models", "jacobian": "one-state models"})
